@@ -16,7 +16,32 @@ def hooks():
             if i < len(fn.params):
                 bound.setdefault(fn.params[i], a)
         I.emit("membership_call", e, P=bound.get("P"), B=bound.get("B"), bounded=bound.get("bounded"))
-    return {"pre": {f"{CONVEX}:in_hull": pre_in_hull}}
+    def post_P(I, e, fn, args, kws, r):
+        r = r.copy()
+        r.tags["corner_cloud"] = True        # one row per corner of the intensity box, in the order of itertools.product
+        return r
+    return {"pre": {f"{CONVEX}:in_hull": pre_in_hull}, "post": {f"{CONVEX}:get_P_from_A": post_P}}
+
+
+def corner_subset(rep, res, entry):
+    """rows of the corner cloud may be dropped by VALUE (exactly-zero rows carry no chromaticity) but never by POSITION:
+    which corner sits in which row is an accident of the enumeration order, and the first row (all sources at lb) is the zero
+    capture only when lb = 0 and baseline = 0"""
+    n = 0
+    for ev in res.events("membership_call") + [x for x in res.events("return") if x.fn.name in ("_get_P_from_A",)]:
+        P = ev.d.get("P") if ev.kind == "membership_call" else ev.d.get("val")
+        if P is None:
+            continue
+        pf = P.flat()
+        if not pf.tag("corner_cloud"):
+            continue
+        n += 1
+        ps = pf.tag("positional_subset")
+        rep.check("R-FLOW", "no corner of the box is dropped by position", ps is None, where=ev.loc, construct=ev.text(), entry=entry,
+                  config=res.config,
+                  msg=f"the vertex cloud passed on is the positional slice `{ps}` of the corner set: a genuine vertex of the gamut is "
+                      f"dropped whenever the dropped row is not redundant (non-zero lb or baseline)")
+    return n
 
 
 def geometry_inputs(K="vec", baseline="vec", ub="finite", lb="nonneg", Brank=2, F="F"):
@@ -248,3 +273,34 @@ def rank_of_extents(rep, res, entry, rule="R-SHAPE"):
         rep.check(rule, "per-source extremum keeps the source axis", ok, where=ev.loc, construct=ev.text(), entry=entry, config=res.config,
                   msg=f"one extremum over all entries of a {src.rank}-D array is stored into several per-source slots: the minimum/maximum "
                       f"of different sources are mixed" if not ok else f"reduction {src} → {vs}")
+
+
+def no_projected_decision(rep, res, entry, fname="in_hull", origin="B"):
+    """a membership answer must depend on the targets themselves: an answer computed from a rank-truncated projection of the
+    targets only (coordinates in the span of the vertex set) is the same for every target with that projection — targets off the
+    span are accepted.  Checked per path: at every return, at the end of every exception handler and of every conditional arm of the membership routine."""
+    import ast as _ast
+    n = 0
+    fns = {ev.fn for ev in res.events("return") if ev.fn.name == fname and ev.fn.module.name == CONVEX}
+    retnames = {}
+    for fn in fns:
+        retnames[fn.qual] = {r.value.id for r in _ast.walk(fn.node) if isinstance(r, _ast.Return) and isinstance(r.value, _ast.Name)}
+    sites = []
+    for ev in res.events("return"):
+        if ev.fn in fns:
+            sites.append((ev, ev.d["val"]))
+    for ev in res.events("handler_exit") + res.events("branch_exit"):
+        if ev.fn in fns:
+            for nm in retnames.get(ev.fn.qual, ()):
+                if nm in ev.d["env"]:
+                    sites.append((ev, ev.d["env"][nm]))
+    for ev, v in sites:
+        d = v.flat().data
+        if origin + "|proj" in d:
+            n += 1
+            rep.check("R-FLOW", "membership is decided on the targets, not only on their projection", origin in d, where=ev.loc,
+                      construct=f"answer of {fname} at the end of `{ev.text()[:60]}`", entry=entry, config=res.config,
+                      msg=f"on this path the membership answer depends on `{origin}` only through a rank-truncated projection (coordinates in "
+                          f"the span of the vertex set): the component of a target orthogonal to the span is ignored, so targets off a flat "
+                          f"gamut whose projection falls inside it are reported in gamut")
+    return n
